@@ -827,6 +827,18 @@ def oracle_fit_structure(mon, a0, b0, fl_rfi, fl_mef, out):
     ok = np.array_equal(np.asarray(fl_rfi, dtype=float), a0, equal_nan=True) and \
         np.array_equal(np.asarray(fl_mef, dtype=float), b0, equal_nan=True)
     mon.chk(ok, 'fit:input-mutated', **d)
+    # ... and whatever the length of the array it sits in (in-place / chunked fast paths for long arrays): one long array of
+    # both signs against the same values evaluated a thousand at a time
+    mon._fit_count = getattr(mon, '_fit_count', 0) + 1
+    if getattr(mon, 'judge_nonpositive_slope', False) and mon._fit_count % 25 == 1:
+        xb = np.concatenate([-np.geomspace(hi * 10, lo / 10, 150001), [0.0], np.geomspace(lo / 10, hi * 10, 150001)])
+        with np.errstate(all='ignore'):
+            for nm, f in (('std_crv', std_crv), ('beads_model', beads_model)):
+                xx = xb if nm == 'std_crv' else xb[xb > 0]
+                whole = np.asarray(f(xx), dtype=float)
+                parts = np.concatenate([np.asarray(f(xx[i:i + 1000]), dtype=float) for i in range(0, len(xx), 1000)])
+                mon.chk(whole.shape == parts.shape and bool(np.array_equal(whole, parts, equal_nan=True)),
+                        'fit:curve-depends-on-array-length', curve=nm, n=int(len(xx)), **d)
     # the curves are functions of the VALUE handed to them, whatever numeric form it comes in (integer arrays of
     # any width, lists, Python / NumPy scalars): same answers as for the float64 array of the same values
     xi = np.unique(np.round(np.geomspace(max(lo / 10, 1), max(hi * 10, 2), 23)))
